@@ -23,6 +23,43 @@ let handle kind c =
            prop "span-shape" (Printf.sprintf "now=%s weekend=%s begin=%s end=%s"
                                 (tok_of_z now) (tok_of_z w) (tok_of_z b) (tok_of_z e))
        end)
+  | "timer" ->
+    (* the rotation chain: stage k has the span of the clock reading at which the
+       (k-1)-th timer fired; exactly one timer is armed after every rotate; the
+       increments of stage k are in the file of span k *)
+    let now0 = next_z c in
+    let w = next_z c in
+    let stages = next_int c in
+    let cur_now = ref now0 in
+    let expect = ref [] in
+    let chain_ok = ref true in
+    let seen = ref [] in
+    let fires = ref [] in
+    for k = 0 to stages do
+      let npend = next_int c in
+      let b = next_z c in let e = next_z c in
+      let n = next_z c in
+      let s = counter_span !cur_now w in
+      seen := (b, e) :: !seen;
+      check_eq (Printf.sprintf "timer-span-%d" k) (fun (a, b) -> tok_of_z a ^ "," ^ tok_of_z b) s (b, e);
+      if npend <> 1 then begin
+        chain_ok := false;
+        prop "rotation-chain" (Printf.sprintf "stage %d: %d timers armed after rotate (the next rotation must be scheduled exactly once)" k npend)
+      end;
+      expect := (meta_time_begin s, meta_time_end s, n) :: !expect;
+      if k < stages then begin cur_now := next_z c; fires := !cur_now :: !fires end
+    done;
+    (* the model function the theorem C09_rotation_chain_tiles is about *)
+    check_eq "timer-chain" (fun l -> String.concat ";" (List.map (fun (a, b) -> tok_of_z a ^ "," ^ tok_of_z b) l))
+      (timer_chain now0 w (List.rev !fires)) (List.rev !seen);
+    let files = next_list c (fun c -> let tb = next_bytes c in let te = next_bytes c in let v = next_z c in (tb, te, v)) in
+    (* spans of consecutive stages may coincide only if a timer fired before the end: never here *)
+    let show l = String.concat ";" (List.map (fun (a, b, v) -> string_of_bytes a ^ "|" ^ string_of_bytes b ^ "=" ^ tok_of_z v) l) in
+    let want = List.sort compare !expect in
+    if List.sort compare files <> want then begin
+      diff "timer-files" ~model:(show want) ~impl:(show (List.sort compare files));
+      if !chain_ok then prop "rotation" (Printf.sprintf "increments after a recorded end are not in the next span's file: %s" (show files))
+    end
   | "realclock" ->
     let t0 = next_z c in
     let t1 = next_z c in
